@@ -412,7 +412,8 @@ def par_configs(tier, rnd_):
             c["StopAfter"] = rnd_.randint(0, ns + 1)
         cfgs.append(c)
     # long inputs: the number of data sets must not depend on the input length
-    for ns in q(tier, [60, 300], [60, 300, 2000]):
+    # (the partial-order validation of a run of 2000 sets did not finish within two hours: 600 in the thorough tier)
+    for ns in q(tier, [60, 300], [60, 300, 600]):
         cfgs.append({"NW": rnd_.randint(1, 4), "Q": rnd_.randint(1, 3), "NSets": ns, "ErrAt": 0, "StopAfter": 9999, "RInitFail": False, "DInitFailAt": 0})
     return cfgs
 
